@@ -30,7 +30,7 @@ CLAIMED = {
         "exhaustive enumeration (itertools.product) of the kind(value) x target type x embedding context matrix (12 contexts, incl. constructor and __replace__ calls that give several fields at once) against a hand-written kind-compatibility table",
         "All cells of 39 value instances (13 kinds) x 52 target types x 12 contexts are evaluated on every run: a value whose kind the "
         "target's family does not admit must raise ConvertError in every context; admitted cells are decided by the reference interpreter. "
-        "Exhaustive over this matrix, not over all values.",
+        "Exhaustive over this matrix, not over all values. Type variables met unsubstituted (bound to a class, a union, an Optional, a List; constrained) are among the targets.",
         "Trusts the kind table in pv/props/c02.py (taken from the statement and docs/index.md); bool -> number and ==-matching literal cells are unspecified.",
         "DESIGN.md section 5, C02",
     ),
@@ -57,7 +57,7 @@ CLAIMED = {
         "For every generated type and value built from it: into_data output is interchange-only (exact concrete types, bool stays bool), "
         "re-parsing it gives the same typed value (modulo excluded fields), re-serialising gives the same data (multiset at set positions), "
         "and the dataclass method agrees with the function; dataclass layout/rename/alias/out_name configurations are generated. "
-        "One recorded finding (D9) and one (D31) are reported as KNOWN-FINDING.",
+        "Recorded findings D9 and D73 are reported as KNOWN-FINDING. Suite handled-member: a third-party type served by a custom handler (from the class, its base or the call) round-trips in plain, Optional, Union and container fields.",
         "Trusts pv/same.py equality and the reference's union-member trace used for the ambiguous-union exclusion; excluded cases are counted in the evidence.",
         "DESIGN.md section 5, C05",
     ),
@@ -66,7 +66,7 @@ CLAIMED = {
         "For typed values x of generated types - results of conversions and natively built equivalents (Fraction, Decimal, datetime, paths, "
         "patterns, sets, deques, enum members, dataclass instances, ValueOrList, arrays, pane.types.Range) - convert(x, T) succeeds and is "
         "the same value with the same types, and a dataclass holding a field of type T accepts x unchanged. Known findings D9, D11, D31 "
-        "are reported as KNOWN-FINDING.",
+        "are reported as KNOWN-FINDING. Suite namedtuple: named-tuple values with non-interchange slots (Fraction, date, FrozenSet), a behaviour-only subclass, five positions.",
         "Trusts pv/same.py and the reference's union-member trace for the ambiguous-union exclusion; external/adjacent tagged unions excluded by the statement.",
         "DESIGN.md section 5, C06",
     ),
@@ -93,7 +93,7 @@ CLAIMED = {
         "For every generated (type, value) of both verdicts, every dict/list in the value is a spy subclass recording mutator calls; a deep "
         "snapshot (types, contents, key order) before must equal the one after from_data, convert, Cls.from_data, keyword and positional "
         "construction, make_unchecked and from_dict_unchecked (defaulted fields left out), and into_data must leave the typed value unchanged; "
-        "suite inserting-maps gives every mapping as a defaultdict (lookup inserts) with entries taken away, against struct literals, Dict and dataclass targets.",
+        "suite inserting-maps gives every mapping as a defaultdict (lookup inserts) with entries taken away, against struct literals, Dict and dataclass targets; suite variant-converter: a tagged-union variant whose own converter hands out the mapping it holds must find it unchanged after into_data.",
         "A mutation through C-level dict/list APIs that bypass subclass methods is seen by the snapshot only.",
         "DESIGN.md section 5, C09",
     ),
@@ -110,7 +110,7 @@ CLAIMED = {
         "Hypothesis generation of overlapping unions; metamorphic oracle against pane's own member conversions (left-most accepting member), spelling-independence, and member-consistent serialisation; reference index cross-check",
         "Unions of 2-5 overlapping members (numeric, text-parsed, subclass-related image types, tagged unions as members, arrays next to literals) in five spellings: the union accepts iff a member accepts, returns exactly the left-most accepting "
         "member's result, every spelling agrees, and into_data uses what a member accepting the typed value writes - a member counts as accepting when its "
-        "fast pass recognises the value or its own serialisation reads back as the value; only when no member does is the runtime-type fallback admitted.",
+        "fast pass recognises the value or its own serialisation reads back as the value; only when no member does is the runtime-type fallback admitted. Suite generic-fields: unions that arrive through a type variable keep the member order of their own parametrization in every field shape.",
         "Member verdicts are pane's own (checked by C01); the reference index is compared only where specified.",
         "DESIGN.md section 5, C11",
     ),
@@ -118,7 +118,7 @@ CLAIMED = {
         "Hypothesis generation of variant sets x three layouts x tag/body/shape mutations; reference implementation of docs/using/tagged.md as oracle, metamorphic body-error oracle, round-trip of the layout; enumeration of duplicate-tag definitions",
         "The variant is decided by the tag alone (instance of the variant whose declared tag equals the data's tag, even when other variants accept the "
         "body), a body error equals the selected variant's own tree, unknown/absent/ill-kinded tags are ConvertErrors naming the tag, duplicate tag values "
-        "are refused with TypeError when the converter is built, and into_data writes exactly the layout from_data reads. Known finding D21 is reported as KNOWN-FINDING.",
+        "are refused with TypeError when the converter is built, and into_data writes exactly the layout from_data reads. Variants that override an inherited tag field are refused or dispatched by the tag their instances carry.",
         "Trusts the tagged-union reference in pv/cg.py (TaggedNode). Tags equal to a declared tag but of another type are unspecified.",
         "DESIGN.md section 5, C12",
     ),
